@@ -58,6 +58,8 @@ func main() {
 		results = runC16(*tier, &sum)
 	case "C14":
 		results = runC14(*tier, &sum)
+	case "C09":
+		results = runC09(*tier, &sum)
 	default:
 		sum.Error = "no schedule scenarios for " + *prop
 	}
@@ -468,6 +470,58 @@ func runC16(tier string, sum *props.SchedSummary) []vs.Result {
 		}
 	}
 	return results
+}
+
+// ---------------------------------------------------------------- C09
+
+// runC09: the MAC-command decoders return (value or error) while proprietary
+// commands are being registered: no schedule may leave a decoder blocked.
+func runC09(tier string, sum *props.SchedSummary) []vs.Result {
+	budget := 200000
+	sc := vs.Scenario{
+		Name:  "decoders return under concurrent registration: register x2 || decode FOpts (uplink) || decode FRMPayload port 0 (downlink)",
+		Setup: func() { lorawan.VerifRegistryReset() },
+		Threads: func() []vs.Thread {
+			return []vs.Thread{
+				{Name: "T1-register", Body: func() {
+					e1 := lorawan.RegisterProprietaryMACCommand(true, lorawan.CID(0x80), 2)
+					e2 := lorawan.RegisterProprietaryMACCommand(false, lorawan.CID(0x81), 1)
+					vs.Observe(fmt.Sprintf("registered %v %v", e1, e2))
+				}},
+				{Name: "T2-decode-fopts", Body: func() {
+					vs.Observe("returned: " + decodeFOpts(true, []byte{0x02, 0x80, 0xaa, 0xbb, 0x02, 0x06, 0x64, 0x05}))
+				}},
+				{Name: "T3-decode-frmpayload", Body: func() {
+					port := uint8(0)
+					p := lorawan.PHYPayload{MHDR: lorawan.MHDR{MType: lorawan.UnconfirmedDataDown}, MACPayload: &lorawan.MACPayload{FPort: &port,
+						FRMPayload: []lorawan.Payload{&lorawan.DataPayload{Bytes: []byte{0x02, 0x14, 0x03, 0x81, 0x07, 0x06}}}}}
+					err := p.DecodeFRMPayloadToMACCommands()
+					vs.Observe(fmt.Sprintf("returned: %d commands, err=%v", len(p.MACPayload.(*lorawan.MACPayload).FRMPayload), err != nil))
+				}},
+			}
+		},
+		Check: func(x *vs.Execution) []vs.Problem {
+			var ps []vs.Problem
+			for _, n := range []string{"T1-register", "T2-decode-fopts", "T3-decode-frmpayload"} {
+				if len(x.Obs[n]) != 1 {
+					ps = append(ps, vs.Problem{Key: "decoder-does-not-return", What: fmt.Sprintf("thread %s did not return (observations %v)", n, x.Obs[n])})
+				}
+			}
+			return ps
+		},
+	}
+	bound := 3
+	if tier == "thorough" {
+		bound = 5
+		budget = 1000000
+	}
+	r1 := vs.Explore(sc, bound, budget)
+	sc.Name += " [all interleavings]"
+	r2 := vs.ExploreAll(sc, budget)
+	if r1.BoundCompleted < 2 {
+		sum.Guards = append(sum.Guards, fmt.Sprintf("C09: scenario completed only preemption bound %d", r1.BoundCompleted))
+	}
+	return []vs.Result{r1, r2}
 }
 
 // ---------------------------------------------------------------- C14
